@@ -289,6 +289,10 @@ pub fn check_zero_cf(c: &SimCase, l: &mut Local) -> Result<(), String> {
 }
 
 fn valid_constants(ts: u16) -> BoxedStrategy<AfConstants> {
+    prop_oneof![3 => moderate_constants(ts), 1 => crate::history::all_valid_constants(ts)].boxed()
+}
+
+fn moderate_constants(ts: u16) -> BoxedStrategy<AfConstants> {
     let divisors: Vec<u16> = (1..=ts.min(256)).filter(|d| ts % d == 0).collect();
     (prop_oneof![3 => 1u16..=60, 1 => 1u16..=5000], prop_oneof![2 => 1u16..=600, 2 => 1u16..=8000], 0u16..10_000, prop_oneof![1 => Just(0u32), 6 => 1u32..100_000, 1 => Just(99_999u32)], any::<u32>(), prop::sample::select(divisors), 1u32..=65_535)
         .prop_map(move |(filter_period, extra, reduction_factor, adaptive_fee_control_factor, macc, tick_group_size, major)| {
@@ -450,51 +454,9 @@ pub fn check_rate(c: &RateCase, l: &mut Local) -> Result<(), String> {
     Ok(())
 }
 
-fn all_valid_constants(ts: u16) -> BoxedStrategy<AfConstants> {
-    let mut divisors: Vec<u16> = vec![];
-    let mut d = 1u32;
-    while d * d <= ts as u32 {
-        if ts as u32 % d == 0 {
-            divisors.push(d as u16);
-            divisors.push((ts as u32 / d) as u16);
-        }
-        d += 1;
-    }
-    divisors.sort();
-    divisors.dedup();
-    (
-        prop_oneof![3 => 1u16..=60, 1 => 1u16..=65_534],
-        any::<u16>(),
-        0u16..10_000,
-        prop_oneof![1 => Just(0u32), 6 => 1u32..100_000, 1 => Just(99_999u32)],
-        (any::<u32>(), 0u8..4),
-        prop::sample::select(divisors),
-        any::<u32>(),
-    )
-        .prop_map(move |(filter_period, extra, reduction_factor, adaptive_fee_control_factor, (macc, macc_kind), tick_group_size, major)| {
-            let cap = (u32::MAX as u64 / tick_group_size as u64) as u32;
-            let max_volatility_accumulator = match macc_kind {
-                0 => macc % (cap.min(3_000_000) + 1),
-                1 => cap - macc % (cap / 16 + 1),
-                _ => macc % cap.saturating_add(1).max(1),
-            };
-            let decay_period = (filter_period as u32 + 1 + extra as u32 % (65_535 - filter_period as u32)).min(65_535) as u16;
-            AfConstants {
-                filter_period,
-                decay_period,
-                reduction_factor,
-                adaptive_fee_control_factor,
-                max_volatility_accumulator,
-                tick_group_size,
-                major_swap_threshold_ticks: (1 + major % ((ts as u32 * 88).min(65_535))) as u16,
-            }
-        })
-        .boxed()
-}
-
 pub fn rate_case() -> BoxedStrategy<RateCase> {
     prop_oneof![6 => prop::sample::select(vec![1u16, 2, 4, 8, 16, 64, 96, 128, 256, 512, 32896]), 1 => 1u16..=u16::MAX]
-        .prop_flat_map(|ts| (Just(ts), all_valid_constants(ts)))
+        .prop_flat_map(|ts| (Just(ts), crate::history::all_valid_constants(ts)))
         .prop_flat_map(|(ts, k)| {
             let (f, d) = (k.filter_period as u32, k.decay_period as u32);
             let dt = prop_oneof![2 => Just(0u32), 1 => Just(1u32), 2 => Just(f.saturating_sub(1)), 2 => Just(f), 2 => Just(d.saturating_sub(1)), 2 => Just(d), 1 => Just(3600u32), 1 => Just(3601u32), 2 => 0u32..70_000];
